@@ -116,6 +116,8 @@ func families() []family {
 		family{[]string{"verified"}, "characteristics-get", "query-ids", 24, 3},
 		family{[]string{"verified"}, "characteristics-get", "frame-size", 11, 2},
 		family{[]string{"verified"}, "accessories", "frame-size", 11, 1},
+		family{[]string{"verified"}, "characteristics-get", "empty-frames", 9, 2},
+		family{[]string{"verified"}, "accessories", "empty-frames", 9, 1},
 		family{[]string{"verified"}, "accessories", "get-oddities", 4, 1},
 		family{[]string{"verified", "ps0", "pvM1"}, "identify", "identify-oddities", 4, 1},
 	)
